@@ -511,7 +511,7 @@ class Stack:
         for tag, cfg in self.gens():
             self.fut["Gen_stack_" + tag] = sub(tlc, "Gen_SandboxReachStack", cfg, workers=1, timeout=1800)
         self.fut["MC_stack"] = sub(tlc, "MC_SandboxReachStack", "MC_SandboxReachStack_T.cfg" if thorough else "MC_SandboxReachStack.cfg",
-                                   workers=4 if thorough else 2, timeout=1500, coverage=True)
+                                   workers=8 if thorough else 2, timeout=1500, coverage=True)
         for name in self.demos():
             self.fut["Demo_stack_" + name] = sub(tlc, "MC_SandboxReachStack", f"Demo_SandboxReachStack_{name}.cfg", workers=1, check=False)
 
